@@ -552,10 +552,16 @@ func c04BatchJudge(sc c11Scenario, obs *c11Obs) []gateVerdict {
 			}
 		}
 	}
+	// a case handed to the client although its server had already exited was not run against a
+	// server at all: whatever the client reports for it, it could not be run
+	dead := map[string]bool{}
+	for _, n := range obs.SentDead {
+		dead[n] = true
+	}
 	want := true
 	var cases []c04Case
 	for i, n := range obs.Names {
-		c := c04Case{name: n, reached: sent[n] && !broken, startFail: broken}
+		c := c04Case{name: n, reached: sent[n] && !broken && !dead[n], startFail: broken}
 		if i < len(sc.Marks) {
 			c.mark = sc.Marks[i]
 		}
